@@ -101,34 +101,59 @@ def check_graph(ctx, res, drv, adj, rep, backend, SC, DC, pending, order=None, l
         inp["node_order"] = ",".join(map(str, order))
     res.evaluations += 1
     res.count("sizes", f"n={n}" if n <= 6 else "n>6")
+    model_cmd = f"solver.trs n={n} x={tu.bits(np.eye(n, dtype=int))} z={tu.bits(adj)} r={'0' * n}"
+    # building the target is not the solver: an exception here is never the known finding
     try:
         target = target_state(adj, rep, order)
+    except Exception as e:  # noqa: BLE001
+        res.violation(f"target:raises:{err_class(e)}", f"building the target QuantumState (representation {rep}) raised {err_class(e)}: {str(e)[:120]}", input=inp)
+        return
+    try:
         comp = (SC if backend == "stab" else DC)()
         comp.measurement_determinism = 1
         solver = TimeReversedSolver(target=target, metric=Infidelity(target), compiler=comp)
-        solver.solve()
-        score, circuit = solver.result
     except Exception as e:  # noqa: BLE001
-        if iso:
-            res.count("errors", "D3:" + err_class(e))
-            res.violation(KEY_D3, f"TimeReversedSolver raises {err_class(e)} on a target with an isolated vertex", input=inp)
+        res.violation(f"solver:init:raises:{err_class(e)}", f"TimeReversedSolver(...) raised {err_class(e)}: {str(e)[:120]}", input=inp)
+        return
+    try:
+        solver.solve()
+    except Exception as e:  # noqa: BLE001
+        cls = err_class(e)
+        if iso and cls == "index":
+            # the known finding D3, exactly as proved of the model (C02.isolated_vertex_raises: solve = .error .index); nothing else is known
+            res.count("errors", "D3:index")
+            res.violation(KEY_D3, "TimeReversedSolver.solve() raises IndexError on a target with an isolated vertex", input=inp)
         else:
-            res.violation(f"solve:raises:{err_class(e)}", f"TimeReversedSolver raised {err_class(e)}: {str(e)[:120]}", input=inp)
+            res.violation(f"solve:raises:{cls}", f"TimeReversedSolver.solve() raised {cls}: {str(e)[:120]}"
+                          + (" (target with an isolated vertex: only IndexError is the known finding D3)" if iso else ""), input=inp)
+        if iso:
+            # the model is asked as well: it must fail on this target, with the same error class
+            pending.append((model_cmd, dict(inp, _kind="model-raises", _cls=cls)))
+        return
+    try:
+        score, circuit = solver.result
+        score_f = float(score)
+        ne, np_, nc = int(circuit.n_emitters), int(circuit.n_photons), int(circuit.n_classical)
+    except Exception as e:  # noqa: BLE001
+        res.violation("solve:malformed-result", f"solver.result is not (score, circuit) with a numeric score and integer register counts: {type(e).__name__}: {str(e)[:120]}", input=inp)
         return
     if iso:
         res.known_gone.append(KEY_D3 + " did not reproduce on " + inp["adjacency"])
-    if abs(float(score)) > 1e-9:
+    if not abs(score_f) <= 1e-9:
         res.violation("solve:score-not-zero", f"reported score {score} is not 0", input=inp)
     try:
         circuit.validate()
     except Exception as e:  # noqa: BLE001
         res.violation("solve:invalid-circuit", f"returned circuit does not validate: {err_class(e)}", input=inp)
         return
-    ne, np_, nc = circuit.n_emitters, circuit.n_photons, circuit.n_classical
     if np_ != n:
         res.violation("solve:wrong-photon-count", f"circuit has {np_} photons for {n} vertices", input=inp)
         return
-    toks, kinds = tokens_of(circuit)
+    try:
+        toks, kinds = tokens_of(circuit)
+    except Exception as e:  # noqa: BLE001
+        res.violation("solve:circuit-outside-model", f"the returned circuit cannot be read as a sequence of modelled operations: {type(e).__name__}: {str(e)[:120]}", input=inp)
+        return
     inp["ops"] = ",".join(toks)
     inp["ne"] = ne
     want = graph_canon(adj, ne)
@@ -144,13 +169,19 @@ def check_graph(ctx, res, drv, adj, rep, backend, SC, DC, pending, order=None, l
                 res.violation(f"solve:repeat:raises:{err_class(e)}",
                               f"call number {k} of solve() on the same solver object raised {err_class(e)} (the first call returned a circuit)", input=inp)
                 break
-            if abs(float(score_k)) > 1e-9:
+            try:
+                bad_score = not abs(float(score_k)) <= 1e-9
+                toks_k, _ = tokens_of(circuit_k)
+            except Exception as e:  # noqa: BLE001
+                res.violation("solve:repeat:malformed-result", f"call number {k} of solve(): result cannot be read: {type(e).__name__}: {str(e)[:120]}", input=inp)
+                break
+            if bad_score:
                 res.violation("solve:repeat:score-not-zero", f"call number {k} of solve() on the same solver object reports score {score_k}", input=inp)
-            toks_k, _ = tokens_of(circuit_k)
-            if per_wire(toks_k) != per_wire(toks) or circuit_k.n_emitters != ne:
-                inp_k = dict(inp, ops=",".join(toks_k), ne=circuit_k.n_emitters, call=k)
+            ne_k = getattr(circuit_k, "n_emitters", None)
+            if per_wire(toks_k) != per_wire(toks) or ne_k != ne:
+                inp_k = dict(inp, ops=",".join(toks_k), ne=ne_k, call=k)
                 res.exact_break("solve:repeat:different-circuit", input=inp_k, impl=",".join(toks_k)[:1500], model=",".join(toks)[:1500])
-                pending.append((f"circ.check ne={circuit_k.n_emitters} np={np_} a={tu.bits(adj) or '-'} ops={inp_k['ops'] or '-'} max=256", inp_k))
+                pending.append((f"circ.check ne={ne_k} np={np_} a={tu.bits(adj) or '-'} ops={inp_k['ops'] or '-'} max=256", inp_k))
                 break
     # both real backends, three settings
     import numpy.random as npr
@@ -178,16 +209,19 @@ def check_graph(ctx, res, drv, adj, rep, backend, SC, DC, pending, order=None, l
             finally:
                 npr.randint, npr.choice = saved
                 np.random.randint, np.random.choice = saved
-            if name == "stab":
-                ok = tu.is_valid(data) and tu.stab_canon(data) == want
-            else:
-                ref = _dense_target(adj, ne)
-                ok = np.allclose(np.asarray(data), ref, atol=1e-8)
+            try:
+                if name == "stab":
+                    ok = tu.is_binary(data) and tu.is_valid(data) and tu.stab_canon(data) == want
+                else:
+                    ref = _dense_target(adj, ne)
+                    ok = np.asarray(data).shape == ref.shape and np.allclose(np.asarray(data), ref, atol=1e-8)
+            except Exception:  # noqa: BLE001 (a state object that cannot even be read is a wrong state)
+                ok = False
             if not ok:
                 res.violation(f"solve:wrong-state:{name}", f"{name} backend (setting {det}): photons are not in the target graph state with emitters in |0>", input=inp)
     pending.append((f"circ.check ne={ne} np={np_} a={tu.bits(adj) or '-'} ops={inp['ops'] or '-'} max=256", inp))
     # exact correspondence with the solver model (per-wire operation sequences)
-    pending.append((f"solver.trs n={n} x={tu.bits(np.eye(n, dtype=int))} z={tu.bits(adj)} r={'0' * n}", dict(inp, _kind="model", _toks=toks)))
+    pending.append((model_cmd, dict(inp, _kind="model", _toks=toks)))
 
 
 # ------------------------------------------------------------------------------------------------ stabilizer targets that are not graph states
@@ -280,31 +314,44 @@ def check_stab_target(ctx, res, drv, SC, pending, given=None):
         comp = SC()
         comp.measurement_determinism = 1
         solver = TimeReversedSolver(target=target, metric=Infidelity(target), compiler=comp)
+    except Exception as e:  # noqa: BLE001
+        res.violation(f"solver:init:raises:{err_class(e)}", f"QuantumState / TimeReversedSolver(...) raised {err_class(e)} on a valid stabilizer tableau: {str(e)[:120]}", input=inp)
+        return
+    try:
         solver.solve()
-        score, circuit = solver.result
     except Exception as e:  # noqa: BLE001
         if prod:
-            # D3 in its general form (C02.solve_isolated_raises_stabilizer): a product qubit; the model must fail with the same class
+            # outside solver_complete_stabilizer (mostly D3 in its general form): the model must fail with the same class
             res.count("errors", "D3-stab:" + err_class(e))
             pending.append((model_cmd, dict(inp, _kind="model-raises", _cls=err_class(e))))
         else:
             res.violation(f"solve:stab-target:raises:{err_class(e)}", f"TimeReversedSolver raised {err_class(e)} on a stabilizer target without product qubit: {str(e)[:120]}", input=inp)
         return
+    try:
+        score, circuit = solver.result
+        score_f = float(score)
+        ne, np_, nc = int(circuit.n_emitters), int(circuit.n_photons), int(circuit.n_classical)
+    except Exception as e:  # noqa: BLE001
+        res.violation("solve:malformed-result", f"solver.result is not (score, circuit) with a numeric score and integer register counts: {type(e).__name__}: {str(e)[:120]}", input=inp)
+        return
     if prod:
-        # not a violation (the circuit is validated like any other), but it would refute the conjectured characterisation "returns iff no product qubit"
+        # not a violation (the circuit is validated like any other), but it refutes the characterisation "returns iff no product qubit" for stabilizer targets
         res.count("branches", "stab-target:product-qubit:returned")
-    if abs(float(score)) > 1e-9:
+    if not abs(score_f) <= 1e-9:
         res.violation("solve:score-not-zero", f"reported score {score} is not 0 (stabilizer target)", input=inp)
     try:
         circuit.validate()
     except Exception as e:  # noqa: BLE001
         res.violation("solve:invalid-circuit", f"returned circuit does not validate: {err_class(e)}", input=inp)
         return
-    ne, np_, nc = circuit.n_emitters, circuit.n_photons, circuit.n_classical
     if np_ != n:
         res.violation("solve:wrong-photon-count", f"circuit has {np_} photons for {n} qubits", input=inp)
         return
-    toks, _ = tokens_of(circuit)
+    try:
+        toks, _ = tokens_of(circuit)
+    except Exception as e:  # noqa: BLE001
+        res.violation("solve:circuit-outside-model", f"the returned circuit cannot be read as a sequence of modelled operations: {type(e).__name__}: {str(e)[:120]}", input=inp)
+        return
     inp["ops"] = ",".join(toks)
     inp["ne"] = ne
     want = _expected_canon(x, z, r, ne)
@@ -318,7 +365,11 @@ def check_stab_target(ctx, res, drv, SC, pending, given=None):
         except Exception as e:  # noqa: BLE001
             res.violation("solve:circuit-does-not-compile:stab", f"stab backend raised {err_class(e)} on the returned circuit", input=inp)
             continue
-        if not (tu.is_valid(data) and tu.stab_canon(data) == want):
+        try:
+            ok = tu.is_binary(data) and tu.is_valid(data) and tu.stab_canon(data) == want
+        except Exception:  # noqa: BLE001
+            ok = False
+        if not ok:
             res.violation("solve:wrong-state:stab", f"stab backend (setting {det}): the circuit does not prepare the stabilizer target with emitters in |0>", input=inp)
     m = sum(1 for tk in toks if tk.startswith("M"))
     if m > 0:
